@@ -17,6 +17,12 @@ func (t *Dense) Transpose() error {
 		return nil // cannot transpose scalars - no data movement
 	}
 
+	if t.viewOf != 0 && t.len() != t.Size() {
+		// the view does not cover its storage window: moving its elements to the front of the window
+		// would overwrite elements of the parent that do not belong to the view
+		return errors.Errorf(methodNYI, "Transpose", "non-contiguous views")
+	}
+
 	defer func() {
 		t.old.zero()
 		t.transposeWith = nil
